@@ -3,6 +3,10 @@ package main
 import (
 	"encoding/json"
 	"fmt"
+	"io/ioutil"
+	"net/http"
+	"net/http/httptest"
+	"sort"
 	"strings"
 	"sync"
 	"time"
@@ -108,6 +112,76 @@ type locSys struct {
 	ro      map[string]bool
 	mu      sync.Mutex
 	newHook func(name string, st core.State) // optional (cron hooks etc.)
+	// recording server for actions with an HTTP endpoint (started by the first rule that names postPlaceholder)
+	postSrv *httptest.Server
+	postMu  sync.Mutex
+	posts   []interface{}
+}
+
+// postPlaceholder is the endpoint the generators write into post actions; addRule replaces it by the URL of the
+// history's own recording server.
+const postPlaceholder = "http://verif.post/"
+
+// postURL starts (once) the server that records every POST body (parsed JSON) and answers 200 "posted".
+func (s *locSys) postURL() string {
+	if s.postSrv == nil {
+		s.postSrv = httptest.NewServer(http.HandlerFunc(func(w http.ResponseWriter, r *http.Request) {
+			raw, _ := ioutil.ReadAll(r.Body)
+			var body interface{}
+			if err := json.Unmarshal(raw, &body); err != nil {
+				body = map[string]interface{}{"unparsable": string(raw)}
+			}
+			if r.Method != "POST" {
+				body = map[string]interface{}{"method": r.Method, "body": body}
+			}
+			s.postMu.Lock()
+			s.posts = append(s.posts, body)
+			s.postMu.Unlock()
+			w.WriteHeader(200)
+			w.Write([]byte("posted"))
+		}))
+	}
+	return s.postSrv.URL
+}
+
+// rewritePostEndpoints points the placeholder endpoint of the rule's actions at the recording server.
+func (s *locSys) rewritePostEndpoints(rule map[string]interface{}) {
+	fix := func(x interface{}) {
+		if a, ok := x.(map[string]interface{}); ok {
+			if e, _ := a["endpoint"].(string); e == postPlaceholder {
+				a["endpoint"] = s.postURL()
+			}
+		}
+	}
+	fix(rule["action"])
+	if l, ok := rule["actions"].([]interface{}); ok {
+		for _, a := range l {
+			fix(a)
+		}
+	}
+}
+
+// takePosts returns the bodies received since the last call, sorted by their canonical JSON text.
+func (s *locSys) takePosts() []interface{} {
+	s.postMu.Lock()
+	got := s.posts
+	s.posts = nil
+	s.postMu.Unlock()
+	keys := make([]string, len(got))
+	for i, b := range got {
+		js, _ := json.Marshal(b)
+		keys[i] = string(js)
+	}
+	idx := make([]int, len(got))
+	for i := range idx {
+		idx[i] = i
+	}
+	sort.SliceStable(idx, func(i, j int) bool { return keys[idx[i]] < keys[idx[j]] })
+	out := make([]interface{}, 0, len(got))
+	for _, i := range idx {
+		out = append(out, got[i])
+	}
+	return out
 }
 
 func (s *locSys) newState(ctx *core.Context, name string) (core.State, error) {
@@ -410,6 +484,7 @@ func (s *locSys) step(op map[string]interface{}) map[string]interface{} {
 		if !ok {
 			return errS("input")
 		}
+		s.rewritePostEndpoints(m)
 		got, err := loc.AddRule(ctx, id, core.Map(m))
 		if err != nil {
 			return errR(err)
@@ -536,8 +611,24 @@ func (s *locSys) step(op map[string]interface{}) map[string]interface{} {
 		return okR(bss)
 	case "event":
 		ev, _ := asMap(op["event"])
+		if s.postSrv != nil {
+			s.takePosts()
+		}
+		if nd, _ := op["noDefaultVar"].(bool); nd {
+			// this event runs under a control without UseDefaultVariableValue (DefaultControl sets it, with the value "undefined"):
+			// an unbound variable in the code of a post action is then an error
+			old := loc.Control()
+			ctl := *old
+			ctl.UseDefaultVariableValue = false
+			loc.SetControl(&ctl)
+			defer loc.SetControl(old)
+		}
 		w, cond := loc.ProcessEvent(ctx, core.Map(ev))
-		return treeOut(w, cond)
+		out := treeOut(w, cond)
+		if s.postSrv != nil {
+			out["posts"] = s.takePosts()
+		}
+		return out
 	case "sleep":
 		ms, _ := op["ms"].(float64)
 		time.Sleep(time.Duration(ms) * time.Millisecond)
@@ -552,6 +643,11 @@ func init() {
 		if err != nil {
 			return errS("setup:" + err.Error())
 		}
+		defer func() {
+			if s.postSrv != nil {
+				s.postSrv.Close()
+			}
+		}()
 		outs := make([]interface{}, 0)
 		ops, _ := c["ops"].([]interface{})
 		for _, o := range ops {
